@@ -116,7 +116,7 @@ class C05(Prop):
             "non-trivial = container with >= 2 members, or a string needing an escape, or a non-integer number; distinct by tree hash")
     ASSUMPTIONS = ["only the C locale exists in this sandbox: the decimal-point substitution code is exercised with '.' only",
                    "Python's json (strict=True, constants rejected) and the recogniser are the independent strict parsers"]
-    REQUIRED_CLASSES = ["container>=2", "escape_needed", "non_integer_number", "non_finite_number", "int_range_integer", "control_char", "non_bmp", "depth>=17"]
+    REQUIRED_CLASSES = ["long_string>=1000", "container>=2", "escape_needed", "non_integer_number", "non_finite_number", "int_range_integer", "control_char", "non_bmp", "depth>=17"]
 
     def budget(self, tier):
         return {"workers": 12, "examples": 2000 if tier == "quick" else 10000}
@@ -125,7 +125,7 @@ class C05(Prop):
         numbers = st.one_of(gens.finite_doubles(), gens.finite_doubles(), gens.top_doubles(),
                             st.sampled_from([math.inf, -math.inf, math.nan]),
                             st.integers(-2 ** 31 - 2, 2 ** 31 + 2).map(float))
-        strings = st.one_of(gens.utf8_strings(10), gens.escapey_strings(), gens.utf8_strings(3))
+        strings = gens.with_long(st.one_of(gens.utf8_strings(10), gens.escapey_strings(), gens.utf8_strings(3)))
         leaves = gens.scalars_built(strings=strings, numbers=numbers)
         keys = st.one_of(gens.utf8_strings(5), gens.ascii_keys(3), gens.escapey_strings(4))
         deep = st.tuples(st.sampled_from(["[", "{", "[{", "{[", "{{["]), st.sampled_from([15, 16, 17, 18, 31, 32, 33, 40, 64, 65, 128, 300]), leaves).map(
@@ -139,6 +139,8 @@ class C05(Prop):
         jv = case["jv"]
         classes = set()
         for n in model.walk_jv(jv):
+            if (n[0] == "S" and len(n[1]) >= 1000) or (n[0] == "O" and any(len(k) >= 1000 for k, _ in n[1])):
+                classes.add("long_string>=1000")
             if n[0] == "N":
                 d = n[1]
                 if d != d or math.isinf(d):
